@@ -34,7 +34,7 @@ fn parse_if(it: &mut LexIterator) -> ParseResult {
     let el = if it.peek_if(&|lex| lex.token == Token::Else) {
         it.parse_if(&Token::Else, &parse_expr_or_stmt, "if else branch", start)?
     } else if it.peek_if_followed_by(&Token::NL, &Token::Else) {
-        it.eat(&Token::NL, "if else branch")?;
+        it.eat_while(&Token::NL); // there may be blank lines before the else
         it.parse_if(&Token::Else, &parse_expr_or_stmt, "if else branch", start)?
     } else {
         None
@@ -65,9 +65,10 @@ fn parse_match(it: &mut LexIterator) -> ParseResult {
 pub fn parse_match_cases(it: &mut LexIterator) -> ParseResult<Vec<AST>> {
     let start = it.eat(&Token::Indent, "match cases")?;
     let mut cases = vec![];
+    it.eat_while(&Token::NL); // there may be blank lines before, between and after cases
     it.peek_while_not_token(&Token::Dedent, &mut |it, _| {
         cases.push(*it.parse(&parse_match_case, "match case", start)?);
-        it.eat_if(&Token::NL);
+        it.eat_while(&Token::NL);
         Ok(())
     })?;
 
